@@ -303,8 +303,27 @@ def check_unit(unit_id, vspec, workdir, timeout=300):
         res["status"] = "inconclusive"
         res["notes"].append("verus tool error: " + r["stderr"][-2000:])
         return res
-    # classify errors per function
+    # lemmas stated in the prelude (no repository text): each is its own named obligation
     lines = text.splitlines()
+    for lname, lclaim in vspec.get("lemmas", []):
+        first = next((i + 1 for i, l in enumerate(lines) if re.search(r"\bproof fn %s\b" % re.escape(lname), l)), None)
+        if first is None:
+            res["status"] = "inconclusive"
+            res["notes"].append("lemma %s not found in the prelude" % lname)
+            continue
+        last = first
+        depth = 0
+        seen = False
+        for j in range(first - 1, len(lines)):
+            depth += lines[j].count("{") - lines[j].count("}")
+            if "{" in lines[j]:
+                seen = True
+            if seen and depth <= 0:
+                last = j + 1
+                break
+        fn_spans.append(dict(first=first, last=last, name=lname, spec=dict(obligations=[lclaim]), ins_lines=set(range(first, last + 1)),
+                             woven="", src_line=None))
+    # classify errors per function
     failed = {}
     unsupported = []
     for kind, msg, line in errs:
